@@ -132,10 +132,10 @@ def load(repo=REPO, features=None, use_cache=True, verbose=True):
         pickle.dump((mir, wire), fh, protocol=pickle.HIGHEST_PROTOCOL)
     os.replace(tmp, pk)
     os.remove(mj)
-    # keep the cache small: drop all but the 30 most recent entries
+    # keep the cache small: drop all but the 12 most recent entries
     try:
         ents = sorted((os.path.getmtime(os.path.join(CACHE, e)), e) for e in os.listdir(CACHE))
-        for _, e in ents[:-30]:
+        for _, e in ents[:-12]:
             shutil.rmtree(os.path.join(CACHE, e), ignore_errors=True)
     except OSError:
         pass
